@@ -607,7 +607,9 @@ func (e *Engine) selectStmt(st *State, fr *frame, x *ssa.Select) Value {
 		hi = n // index -1 is modelled as n
 	}
 	if hi < 0 {
-		st.abort("done", "select{} blocks forever")
+		// select {} can never proceed
+		st.events = append(st.events, Event{Tag: "blocking:select{}"})
+		st.abort("deadlock", "select {} blocks forever")
 	}
 	k := hi
 	if chooser := e.harnessFunc("vhSelectChoice"); chooser != nil {
@@ -767,6 +769,19 @@ func (e *Engine) Explore(entry *ssa.Function, args []Value) {
 					switch x := r.(type) {
 					case *pathEnd:
 						res = PathResult{x.Reason, x.Detail}
+						if x.Reason == "deadlock" {
+							// the harness can never proceed: a violation of its implicit obligation
+							func() {
+								defer func() {
+									if r2 := recover(); r2 != nil {
+										if _, ok := r2.(*pathEnd); !ok {
+											panic(r2)
+										}
+									}
+								}()
+								st.Assert(name+".deadlock", FalseT)
+							}()
+						}
 					case *goPanic:
 						res = PathResult{"panic", x.Info.Kind + ": " + x.Info.Detail}
 						// an uncaught panic of the harness itself is a violation
@@ -842,6 +857,29 @@ func (e *Engine) SetGlobalInt(pkgPath, name string, v int) error {
 	}
 	o := e.globalObj(g)
 	e.baseMem[o] = e.intTerm(big.NewInt(int64(v)), types.Typ[types.Int])
+	return nil
+}
+
+// SetGlobalStrings gives a package-level []string variable of any loaded
+// package (e.g. os.Args, whose initialiser is not executed) a concrete value.
+func (e *Engine) SetGlobalStrings(pkgPath, name string, vals []string) error {
+	var g *ssa.Global
+	for _, p := range e.P.Prog.AllPackages() {
+		if p.Pkg.Path() == pkgPath {
+			g, _ = p.Members[name].(*ssa.Global)
+		}
+	}
+	if g == nil {
+		return fmt.Errorf("no global %s.%s", pkgPath, name)
+	}
+	var elems []Value
+	for _, v := range vals {
+		elems = append(elems, StrT(v))
+	}
+	e.objCtr++
+	arr := &Object{ID: e.objCtr, Typ: types.NewArray(types.Typ[types.String], int64(len(vals))), Name: pkgPath + "." + name + "$backing"}
+	e.baseMem[arr] = &ArrayV{E: elems}
+	e.baseMem[e.globalObj(g)] = &SliceV{Obj: arr, Len: len(vals), Cap: len(vals)}
 	return nil
 }
 
